@@ -159,7 +159,9 @@ func Deserialize(b []byte) (Message, error) {
 
 	switch b[0] {
 	case DATA:
-		if len(b) < 3 {
+		// The type, the sequence number and the two flag bytes precede
+		// the payload.
+		if len(b) < 4 {
 			return nil, io.EOF
 		}
 		return &PacketData{
